@@ -495,6 +495,15 @@ def store_subscript(I, obj, idx, v, node):
             obj.taint |= tj(idx, v)
             obj.stored_unknown = getattr(obj, 'stored_unknown', []) + [(idx, v)]
         return
+    if isinstance(obj, AList) and isinstance(idx, tuple) and idx and idx[0] == 'slice':
+        # l[a:b] = values
+        I.effect('item-store', node, {'obj': obj, 'key': idx, 'value': v})
+        _, lo, hi, step = idx
+        vals = v.items if isinstance(v, AList) and not v.unknown else (list(concrete(v)) if is_concrete(v) and isinstance(concrete(v), (list, tuple)) else None)
+        if not obj.unknown and vals is not None and all(x is None or is_concrete(x) for x in (lo, hi, step)) and step is None:
+            obj.items[slice(None if lo is None else concrete(lo), None if hi is None else concrete(hi))] = list(vals)
+            return
+        raise AnalysisError('slice assignment with unknown bounds or values at %s' % norm(node)[:60])
     if isinstance(obj, AList):
         I.effect('item-store', node, {'obj': obj, 'key': idx, 'value': v})
         if is_concrete(idx) and not obj.unknown:
